@@ -5,7 +5,7 @@
 From Coq Require Import List Arith Lia Bool Ring.
 From TLV Require Import Base.Shape Base.PyList Base.Tensor Base.BigSum Base.Ops Model.Base Model.Factorized
   Proofs.BaseProofs Proofs.FactorizedProofs Proofs.FactorizedProofs3 Proofs.FactorizedProofs4 Proofs.FactorizedProofs5
-  Proofs.FactorizedProofs9 Proofs.FactorizedProofs21 Model.Transforms Proofs.TransformsProofs.
+  Proofs.FactorizedProofs7 Proofs.FactorizedProofs9 Proofs.FactorizedProofs21 Model.Transforms Proofs.TransformsProofs.
 Import ListNotations.
 
 Section Link.
@@ -155,5 +155,42 @@ Proof.
   assert (Li : length is = length cs) by (rewrite (inb_length _ _ Hi); exact L1).
   rewrite <- Li. rewrite firstn_app, Nat.sub_diag, firstn_all, firstn_O, app_nil_r.
   rewrite skipn_app, Nat.sub_diag, skipn_all, skipn_O. cbn [app]. symmetry. eapply ttm_chain_link; eauto.
+Qed.
+
+(* ---------- PARAFAC2: pf2_entry is what C03's model of parafac2_to_slice returns (weights as a vector, every matrix as a dense
+   tensor; the validator's verdict on the encoded operand is a hypothesis -- C03's model of _validate_parafac2_tensor) *)
+Lemma shape_of_rows R (A : mat F) : shape (of_rows R A) = [length A; R].
+Proof. reflexivity. Qed.
+Lemma Forall2_of_rows Q : forall Ps : list (mat F),
+  Forall2 (fun (P : tensor F) J => shape P = [J; Q]) (map (of_rows Q) Ps) (map (@length (list F)) Ps).
+Proof. induction Ps; cbn [map]; constructor; auto. Qed.
+Theorem pf2_to_slice_link (w : list F) (A B C : mat F) (Ps : list (mat F)) shp i :
+  validate_parafac2 Op (Some (of_vec w)) [of_rows (length w) A; of_rows (length w) B; of_rows (length w) C] (map (of_rows (length B)) Ps)
+    = Ok (shp, length w) ->
+  length Ps = length A -> i < length A ->
+  exists t, Factorized.parafac2_to_slice Op (Some (of_vec w)) [of_rows (length w) A; of_rows (length w) B; of_rows (length w) C]
+                                         (map (of_rows (length B)) Ps) i = Ok t /\
+    shape t = [length (nth i Ps []); length C] /\
+    forall j k, j < length (nth i Ps []) -> k < length C -> Factorized.get2 Op t j k = pf2_entry Op w A B C Ps i j k.
+Proof.
+  intros Hv Hl Hi.
+  destruct (parafac2_to_slice_spec F Op Rth (Some (of_vec w)) _ _ _ _ (map (@length (list F)) Ps) shp (length A) (length B) (length w) (length C) i
+              Hv (shape_of_rows _ A) (shape_of_rows _ B) (shape_of_rows _ C) eq_refl (Forall2_of_rows (length B) Ps)
+              (eq_trans (map_length _ _) Hl) Hi) as (t & Ht & Hst & Hg).
+  assert (Hip : i < length Ps) by lia.
+  assert (EJ : nth i (map (@length (list F)) Ps) 0 = length (nth i Ps [])) by (now apply nth_map').
+  rewrite EJ in Hst, Hg.
+  exists t. split; [exact Ht|]. split; [exact Hst|]. intros j k Hj Hk. rewrite (Hg j k Hj Hk).
+  unfold p2_entry, pf2_entry, cp_entry. rewrite (nth_map' (of_rows (length B)) Ps i [] _) by assumption.
+  change (Factorized.fsumn Op) with (sumn Op).
+  rewrite (sumn_ext Op _ _
+             (fun r => sumn Op (length B) (fun q =>
+                mget Op (nth i Ps []) j q *f (vget Op w r *f (mget Op A i r *f (mget Op B q r *f (mget Op C k r *f f1 Op))))))).
+  2:{ intros r Hr. rewrite (get2_of_rows _ A) by assumption. rewrite (get2_of_rows _ C) by assumption.
+      cbn [wv]. rewrite get1_of_vec by assumption.
+      rewrite <- (sumn_scale_r Op Rth). rewrite <- (sumn_scale_r Op Rth). apply sumn_ext. intros q Hq.
+      rewrite (get2_of_rows _ (nth i Ps [])) by assumption. rewrite (get2_of_rows _ B) by assumption. ring. }
+  rewrite (sumn_exchange Op Rth). apply sumn_ext. intros q Hq.
+  rewrite <- (sumn_scale_l Op Rth). apply sumn_ext. intros r Hr. cbn [cp_term]. reflexivity.
 Qed.
 End Link.
